@@ -276,6 +276,8 @@ macro_rules! pump {
 
 struct Cfg {
     seed: u64,
+    /// seed of the unit sample on large inputs (few values, shared with field discovery)
+    sample: u64,
     only: Option<Vec<String>>,
     max_units: usize,
     max_entries: usize,
